@@ -11,7 +11,7 @@ def is_atom(v):
 def diff_tree(a, b):
     """exact update-path tree: None if equal, True where a subtree must be taken as changed"""
     if is_atom(a) or is_atom(b):
-        return None if json.dumps(a, sort_keys=True) == json.dumps(b, sort_keys=True) else True
+        return None if json.dumps(a) == json.dumps(b) else True
     if isinstance(a, list) != isinstance(b, list):
         return True
     if isinstance(a, list):
@@ -23,6 +23,10 @@ def diff_tree(a, b):
             if d is not None:
                 out[str(i)] = d
         return out or None
+    # The enumeration order of an object is observable (wx:for over an object: positions follow the key sequence).  Path updates can
+    # only append a key; dropping, reordering or inserting a key means the object itself was replaced: its own path differs.
+    if list(b.keys())[:len(a)] != list(a.keys()):
+        return True
     out = {}
     for k in list(a.keys()) + [k for k in b.keys() if k not in a]:
         if k not in a or k not in b:
@@ -90,8 +94,28 @@ def mutate_data(rng, D, nchanges=None, focus=None):
         if not ps:
             break
         p = rng.choice(ps)
-        if c < 6:
+        if c < 5:
             D2 = set_path(D2, p, copy.deepcopy(rng.choice(LEAF_POOL)))
+        elif c == 5:
+            # object edits: drop / add / rename a key (an object may be a wx:for list: its keys are the indexes)
+            objs = [q for q in paths_of(D2) if q and isinstance(get_path(D2, q), dict) and "$" not in get_path(D2, q)]
+            if focus and rng.chance(4, 5):
+                objs = [q for q in objs if q[0] in focus] or objs
+            if not objs:
+                continue
+            q = rng.choice(objs)
+            o = dict(get_path(D2, q))
+            op = rng.below(3)
+            ks = list(o.keys())
+            if op == 0 and ks:
+                del o[rng.choice(ks)]
+            elif op == 1:
+                o[rng.choice(["n1", "zz", "k", "p"])] = copy.deepcopy(rng.choice(LEAF_POOL))
+            elif ks:
+                k = rng.choice(ks)
+                v = o.pop(k)
+                o[k + "2"] = v
+            D2 = set_path(D2, q, o)
         else:
             # list edits: grow / shrink / reorder / duplicate-key
             lists = [q for q in paths_of(D2) if q and isinstance(get_path(D2, q), list)]
